@@ -1,6 +1,6 @@
 From FJ Require Import Lib.Base.
 (* C14 - every assembly failure is a specific library diagnostic (statements; proofs in Proofs/AsmErrorsProps.v,
-   model in Model/AsmErrors.v = /repo after the fix commits for F7, F8, F9, N1, N2, N5).
+   model in Model/AsmErrors.v = /repo after the fix commits for F7, F8, F9, N1, N2, N3, N4 (523f875, d8bb7f7), N5).
 
    `assemble_model cfg t` is the outcome of `assemble` on the parse tree t: a verdict (success, a specific library
    exception LibError k, the catch-all "Unknown exception ... please report this bug" with the raw exception that caused
@@ -12,24 +12,23 @@ Local Open Scope string_scope.
 Local Open Scope Z_scope.
 
 (* The outcome is success or a specific library exception - never the catch-all, never a hang - for every tree the parser
-   can return (has_main: the dictionary holds the main macro ("", 0)) that stays clear of the three classes of defects
+   can return (has_main: the dictionary holds the main macro ("", 0)) that stays clear of the two classes of defects
    still open in /repo (one boolean guard each, each refuted below):
      counts_materialisable   F9b/N6  a pad of more ops than memory can hold, a rep count or power that never finishes
-     expr_depth_ok           F10     an expression tree deeper than the recursive Expr methods survive
-     diagnostics_printable   N4      an error message that has to print an integer of more than 4300 digits *)
+     expr_depth_ok           F10     an expression tree deeper than the recursive Expr methods survive *)
 Theorem C14_specific : forall cfg t, has_main t = true ->
-  counts_materialisable cfg t = true -> expr_depth_ok cfg t = true -> diagnostics_printable cfg t = true ->
+  counts_materialisable cfg t = true -> expr_depth_ok cfg t = true ->
   specific (assemble_model cfg t) = true.
 Proof. exact specific_under_guards. Qed.
 Print Assumptions C14_specific.
 
-(* Without any guard: whatever reaches the catch-all is one of exactly three raw exceptions (so no struct.error from the
+(* Without any guard: whatever reaches the catch-all is one of exactly two raw exceptions (so no struct.error from the
    writer, no IndexError from the wflip chain, no KeyError from a dictionary, no TypeError/ZeroDivisionError from an
-   operator). *)
+   operator, no ValueError from a handler that builds a message). *)
 Theorem C14_catch_all_classes : forall cfg t, has_main t = true ->
   match o_verdict (assemble_model cfg t) with
   | VOk | VLib _ | VHang => True
-  | VCatchAll x => x = ValueError \/ x = RecursionError \/ x = MemoryError
+  | VCatchAll x => x = RecursionError \/ x = MemoryError
   end.
 Proof. exact verdict_cases. Qed.
 Print Assumptions C14_catch_all_classes.
@@ -68,10 +67,6 @@ Proof. vm_compute. reflexivity. Qed.
 Example C14_F10_refuted :
   o_verdict (assemble_model (cfg0 64 3) (prog [SFlipJump (EInt 0) (sum_x 599) (P 1); SLabel "x" (P 2)])) = VCatchAll RecursionError.
 Proof. vm_compute. reflexivity. Qed.
-(* N4    `;x+(1<<20000)`  (x undefined: the message has to print 2^20000) *)
-Example C14_N4_refuted :
-  o_verdict (assemble_model (cfg0 64 3) (prog [SFlipJump (EInt 0) (EOp OAdd [ELbl "x"; shl 1 20000]) (P 1)])) = VCatchAll ValueError.
-Proof. vm_compute. reflexivity. Qed.
 
 (* fixed findings: the old witnesses are now specific library errors, and no file is touched *)
 (* F7    `;1/0`  ->  FlipJumpExprException "bad math operation" *)
@@ -88,6 +83,25 @@ Example C14_F8_fixed :
 Proof. vm_compute. reflexivity. Qed.
 Example C14_F8_high_fixed :
   assemble_model (cfg0 64 1) (prog [SFlipJump (EInt 0) (shl 1 64) (P 1)]) = mkout (VLib KOpRange) NoFile.
+Proof. vm_compute. reflexivity. Qed.
+(* N4    `;x+(1<<20000)` (x undefined), `;` `pad 0-(1<<20000)`, `;` `pad 1<<20000`: the messages print 2^20000 in hex (523f875) *)
+Example C14_N4_fixed :
+  assemble_model (cfg0 64 3) (prog [SFlipJump (EInt 0) (EOp OAdd [ELbl "x"; shl 1 20000]) (P 1)]) = mkout (VLib KOpEval) NoFile /\
+  assemble_model (cfg0 64 3) (prog [SFlipJump (EInt 0) nxt (P 1); SPad (EOp OSub [EInt 0; shl 1 20000]) (P 2)]) = mkout (VLib KPadNonPositive) NoFile /\
+  assemble_model (cfg0 64 3) (prog [SFlipJump (EInt 0) nxt (P 1); SPad (shl 1 20000) (P 2)]) = mkout (VLib KPadTooBig) NoFile.
+Proof. vm_compute. repeat split; reflexivity. Qed.
+(* N4'   `;` `reserve 1<<20000` `pad 2`; `;` `reserve (1<<20000)+64` `pad 2`; `wflip 0, 3` `reserve 128` `;` `reserve 1<<20000`
+         (d8bb7f7: the address / the word is printed through int_to_str / hex) *)
+Example C14_N4_residual_fixed :
+  assemble_model (cfg0 64 3) (prog [SFlipJump (EInt 0) nxt (P 1); SReserve (shl 1 20000) (P 2); SPad (EInt 2) (P 3)])
+  = mkout (VLib KPadTooBig) NoFile /\
+  assemble_model (cfg0 64 3) (prog [SFlipJump (EInt 0) nxt (P 1); SReserve (EOp OAdd [shl 1 20000; EInt 64]) (P 2); SPad (EInt 2) (P 3)])
+  = mkout (VLib KPadUnaligned) NoFile.
+Proof. vm_compute. split; reflexivity. Qed.
+Example C14_N4_add_data_fixed :
+  assemble_model (cfg0 64 3)
+    (prog [SWordFlip (EInt 0) (EInt 3) nxt (P 1); SReserve (EInt 128) (P 2); SFlipJump (EInt 0) nxt (P 3); SReserve (shl 1 20000) (P 4)])
+  = mkout (VLib KWriterData) NoFile.
 Proof. vm_compute. reflexivity. Qed.
 (* N2    `;` `segment 1024` `ns _ { wflip_area_start_0: }`, and the label declared BEFORE the segment  ->  'label declared twice' *)
 Example C14_N2_fixed :
@@ -119,13 +133,13 @@ Definition sample : macro_dict :=
 
 Example C14_guards_satisfiable :
   let c := cfg0 64 3 in
-  (has_main sample && counts_materialisable c sample && expr_depth_ok c sample && diagnostics_printable c sample)%bool = true
+  (has_main sample && counts_materialisable c sample && expr_depth_ok c sample)%bool = true
   /\ assemble_model c sample = mkout VOk CompleteFile.
 Proof. vm_compute. split; reflexivity. Qed.
 
 (* and on a program that fails: an undefined macro is a specific error under the same guards *)
 Example C14_guards_satisfiable_on_failure :
   let c := cfg0 32 1 in let t := prog [SMacroCall "nope" [EInt 1] (P 1)] in
-  (has_main t && counts_materialisable c t && expr_depth_ok c t && diagnostics_printable c t)%bool = true
+  (has_main t && counts_materialisable c t && expr_depth_ok c t)%bool = true
   /\ assemble_model c t = mkout (VLib KMacroUndefined) NoFile.
 Proof. vm_compute. split; reflexivity. Qed.
